@@ -493,7 +493,7 @@ fn gen_written(ctx: &GenCtx) -> Vec<Value> {
     // lengths on both sides of the 1-/2-/5-octet length encodings (191|192, 8383|8384): every payload length
     // that puts the literal packet, the container around it or a final partial part there
     let mut b = 0u64;
-    for enc in [json!({"k":"none"}), json!({"k":"v1","sym":"aes128"}), json!({"k":"v2","sym":"aes128","aead":"ocb","chunk":6})] {
+    for enc in [json!({"k":"none"}), json!({"k":"v1","sym":"aes128"}), json!({"k":"v2","sym":"aes128","aead":"ocb","chunk":6})].into_iter().filter(|_| ctx.first_round()) {
         for (source, partial) in [("bytes", 512u64), ("reader", 16384), ("reader", 512)] {
             for edge in [192usize, 8384] {
                 for d in 0..=70usize {
